@@ -1,54 +1,40 @@
 """Shared by C09 and C12: "an archive member above the per-member limit is never read" as a typestate obligation on the real
 member loops of archive_extractor.py.
 
-The read call `zf.read(V)` / `zf.open(V)` / `tf.extractfile(V)` must take the member object itself (a local name V bound to the
-ZipInfo / TarInfo, not a file name: names are not unique in an archive), and on every path to it the guard
-`V.<size attr> > <limit>` must have been evaluated false for the same binding of V (must-fact, killed when V is rebound).
-Anything else (size carried in a tuple, read by name, other guard shape) is not recognised -> `unknown`: the native replayer then
-decides with real archives (oversize members, records sharing one name)."""
+The read call `zf.read(V)` / `zf.open(V)` / `tf.extractfile(V)` must take the member object itself (the ZipInfo / TarInfo value, not a
+file name: names are not unique in an archive), and on every path to it the guard `V.<size attr> > <limit>` must have been evaluated
+false for the same *value* V.  Since round 3 the analysis is `contracts/C09_flow.py::GuardFlow` (facts attached to values, not to
+variable names): renamed / inlined locals, `continue` guards vs nested ifs, flipped or negated comparisons, a boolean helper such as
+`_exceeds_limit(name, V.size)`, a pre-filter moved into a (generator) helper or a comprehension are all followed.  Anything else (size
+carried in a tuple, read by name, other guard shape) is not recognised -> `unknown`: the native replayer then decides with real
+archives (oversize members, records sharing one name)."""
 import ast
 
 from pyvc import loader
-from pyvc.flow import MustFacts, ground_obligation
+from pyvc.flow import ground_obligation
 
 ARCH = "sharepoint2text/parsing/extractors/archive_extractor.py"
 LIMITS = ("_config.max_memory_size", "MAX_MEMORY_SIZE")
-
-
-def _guard(test, size_attrs):
-    """-> name V when `test` is `V.<size attr> > <limit>`."""
-    if isinstance(test, ast.Compare) and len(test.ops) == 1 and isinstance(test.ops[0], ast.Gt) and ast.unparse(test.comparators[0]) in LIMITS:
-        l = test.left
-        if isinstance(l, ast.Attribute) and l.attr in size_attrs and isinstance(l.value, ast.Name):
-            return l.value.id
-    return None
+_KIND = {"_extract_from_zip_optimized": "zip-size", "_extract_from_tar_optimized": "tar-size"}
 
 
 def member_size_guard(prop, repo, fn_name, readers, size_attrs, label="member-size-check-dominates-read"):
+    """`readers` / `size_attrs` are kept for backwards compatibility (the reader methods and size attributes are fixed per archive kind)."""
+    from contracts import C09_flow
     arch = loader.module(ARCH, repo)
     oid = f"{prop}/archive_extractor.py::{fn_name}/typestate#{label}"
-    f = arch.functions.get(fn_name)
-    if f is None:
+    if fn_name not in arch.functions:
         return ground_obligation(oid, False, "function missing", ARCH, definite=False), None
-    reads = [n for n in ast.walk(f) if isinstance(n, ast.Call) and isinstance(n.func, ast.Attribute) and n.func.attr in readers]
-    if not reads:
-        return ground_obligation(oid, False, f"no {'/'.join(readers)} call found", ARCH, definite=False), None
-    odd = [n for n in reads if not (n.args and isinstance(n.args[0], ast.Name))]
-    if odd:
-        return ground_obligation(oid, False, f"line {odd[0].lineno}: `{ast.unparse(odd[0])}` does not read through the member object that was size-checked", ARCH,
-                                 definite=False), None
-
-    def gen_cond(test, branch):
-        v = _guard(test, size_attrs)
-        return [("within-limit", v)] if v is not None and branch is False else []
-
-    mf = MustFacts(gen_cond=gen_cond, need=lambda n: [(("within-limit", n.args[0].id), f"line {n.lineno}")] if any(n is r for r in reads) else [],
-                   kill_names=lambda fact: [fact[1]])
-    res = mf.run(f)
-    bad = [r for r in res if not r.ok]
-    ok = bool(res) and not bad
-    return ground_obligation(oid, ok, "; ".join(f"{r.desc}: read of a member whose size was not checked against the limit on this path" for r in bad)
-                             or f"{len(res)} read site(s), each dominated by the size guard on the same member object", ARCH, definite=False), arch.fn_info(fn_name)
+    try:
+        gf = C09_flow.guard_flow(repo, ARCH)
+        sinks = gf.sinks(fn_name, _KIND.get(fn_name, "zip-size"))
+    except Exception as e:  # noqa  an unforeseen shape is "not recognised", never an engine error
+        return ground_obligation(oid, False, f"guard analysis does not cover this shape ({type(e).__name__}: {e})", ARCH, definite=False), arch.fn_info(fn_name)
+    if not sinks:
+        return ground_obligation(oid, False, f"no {'/'.join(readers)} call on an archive object found from {fn_name}", ARCH, definite=False), arch.fn_info(fn_name)
+    bad = [s for s in sinks if not s[3]]
+    return ground_obligation(oid, not bad, "; ".join(f"{s[4]} in {s[0]}: read of a member whose size was not checked against the limit on this path" for s in bad)
+                             or f"{len(sinks)} read site(s), each dominated by the size guard on the same member object", ARCH, definite=False), arch.fn_info(fn_name)
 
 
 def zip_and_tar(prop, repo, label="member-size-check-dominates-read"):
